@@ -277,3 +277,74 @@ pub fn backend_entries(text: &str) -> Option<Vec<BackendEntry>> {
     }
     Some(out)
 }
+
+/// What a module text declares at its top level, counted on the token level by the harness
+/// itself (independent of pyxis's parser): names of types, enums, extern types, extern values.
+#[derive(Clone, Debug, Default, PartialEq, Eq)]
+pub struct Census {
+    pub types: Vec<String>,
+    pub enums: Vec<String>,
+    pub extern_types: Vec<String>,
+    pub extern_values: Vec<String>,
+}
+
+/// `None` when the text does not lex.
+pub fn census(text: &str) -> Option<Census> {
+    use proc_macro2::{TokenStream, TokenTree};
+    let tokens: Vec<TokenTree> = std::panic::catch_unwind(|| text.parse::<TokenStream>())
+        .ok()?
+        .ok()?
+        .into_iter()
+        .collect();
+    let ident = |t: Option<&TokenTree>| match t {
+        Some(TokenTree::Ident(i)) => Some(plain_ident(&i.to_string())),
+        _ => None,
+    };
+    let mut c = Census::default();
+    // Top-level tokens only (groups are single trees); a declaration keyword counts when it
+    // starts a statement: at the very beginning, after `;`, after a brace group, after an
+    // attribute's bracket group, or after `pub`.
+    let mut i = 0;
+    let mut at_start = true;
+    while i < tokens.len() {
+        let word = ident(tokens.get(i));
+        if at_start {
+            match word.as_deref() {
+                Some("pub") => {
+                    i += 1;
+                    continue;
+                }
+                Some("type") => {
+                    if let Some(n) = ident(tokens.get(i + 1)) {
+                        c.types.push(n);
+                    }
+                }
+                Some("enum") => {
+                    if let Some(n) = ident(tokens.get(i + 1)) {
+                        c.enums.push(n);
+                    }
+                }
+                Some("extern") => match ident(tokens.get(i + 1)).as_deref() {
+                    Some("type") => {
+                        if let Some(n) = ident(tokens.get(i + 2)) {
+                            c.extern_types.push(n);
+                        }
+                    }
+                    Some(n) => c.extern_values.push(n.to_string()),
+                    None => {}
+                },
+                _ => {}
+            }
+        }
+        at_start = match &tokens[i] {
+            TokenTree::Punct(p) => p.as_char() == ';',
+            TokenTree::Group(g) => matches!(
+                g.delimiter(),
+                proc_macro2::Delimiter::Brace | proc_macro2::Delimiter::Bracket
+            ),
+            _ => false,
+        };
+        i += 1;
+    }
+    Some(c)
+}
